@@ -11,9 +11,9 @@ RULE = ("catalogue models (SIR, SIR/N, SEIR, SIS, SIR with births and deaths, Lo
         "additive-parameter ODE, logistic) and bounded seeded random models x parameters x time grids (uniform / non-uniform, "
         "array / list / tuple / scalar, float or integer dtype) x initial time (integer or fractional; numpy, float or int typed) x initial state as array / list / tuple / integer array x entry point {integrate, solve_determ, integrate2, integrateFuncJac} x method "
         "{None, lsoda, vode, ivode, dopri5, dop853} x full_output x includeOrigin x I-seam buffer policy {native, fresh, "
-        "reuse}; non-trivial = some solve returned >= 3 rows whose reference values differ pairwise by > 100 x tolerance; "
+        "reuse} x histories on one object (the owner re-assigns parameters - list / array / dict / permuted pairs / partial dict - and initial values / initial time between solves: H.interleave); non-trivial = some solve returned >= 3 rows whose reference values differ pairwise by > 100 x tolerance; "
         "distinct = distinct case digests")
-MEASURE = "distinct (entry point, method, full_output, includeOrigin, grid type, buffer policy) tuples"
+MEASURE = "distinct (entry point, method, full_output, includeOrigin, grid type, buffer policy, directly-after-rebind) tuples"
 COMPONENTS = {"real": ["pygom DeterministicOde.integrate/integrate2, SimulateOde.solve_determ, ode_utils.integrate, integrateFuncJac",
                        "scipy.integrate.ode (lsoda, vode, dopri5, dop853) and odeint: all numerics"],
               "stub": ["I seam: proxy around scipy.integrate.ode that decides the identity of the array returned as .y "
@@ -34,7 +34,15 @@ def generate(seed, tier):
         ops = solver.gen_solve_ops(rng, t0, tmax, rng.randint(1, 3))
         if any(solver.safe_reference(ref, theta, x0, t0, op["grid"]) is None for op in ops):
             continue
+        if rng.random() < 0.4:
+            # a history on one object: the owner re-assigns parameters / initial values between solves
+            more = _history(rng, ref, name, theta, x0, t0, tmax, box, pos)
+            if more is None:
+                continue
+            ops = ops + more
         env, batch = solver.env_for(S, tier)
+        if any(op["op"] == "rebind" for op in ops):
+            batch = "fault_injecting"          # H.interleave
         return {"engine": "solver", "problem": name, "model": model, "theta": theta, "x0": x0, "t0": t0,
                 "env": env, "ops": ops, "batch": batch,
                 "x0_as": rng.choice(["array", "array", "list", "tuple", "int_array"]),
@@ -42,11 +50,51 @@ def generate(seed, tier):
     raise core.HarnessError("no C02 case")
 
 
+def _history(rng, ref, name, theta, x0, t0, tmax, box, pos):
+    """1-3 rounds of (rebind; 1-2 solves).  Every solve is checked against the reference for the values current
+    at that point; rounds whose reference leaves the bounded domain are dropped."""
+    out = []
+    cur_th, cur_x0, cur_t0 = list(theta), list(x0), t0
+    names = ref.param_names
+    for _ in range(rng.randint(1, 3)):
+        rb = {"op": "rebind"}
+        if ref.p and rng.random() < 0.8:
+            th = [solver.rand_in_box(rng, b) for b in box]
+            how = rng.choice(["list", "array", "dict", "pairs", "partial"])
+            rb.update({"theta": th, "how": how})
+            if how == "pairs":
+                perm = list(range(len(names)))
+                rng.shuffle(perm)
+                rb["perm"] = perm
+            if how == "partial":
+                keep = [nm for nm in names if rng.random() < 0.5] or [rng.choice(names)]
+                rb["names"] = keep
+                th = [th[i] if names[i] in keep else cur_th[i] for i in range(len(names))]
+        else:
+            th = list(cur_th)
+        nx0, nt0 = cur_x0, cur_t0
+        if rng.random() < 0.6 or "theta" not in rb:
+            nx0 = [round(v * rng.uniform(0.6, 1.4), 4) for v in cur_x0]
+            if name != "random" and not pos:
+                nx0 = [round(v + rng.uniform(-0.2, 0.2), 4) for v in nx0]
+            nt0 = rng.choice([cur_t0, cur_t0, cur_t0 + 0.5, 0.0, 1.25])
+            rb.update({"x0": nx0, "t0": nt0, "t0_as": rng.choice(["numpy", "float"])})
+        solves = solver.gen_solve_ops(rng, nt0, tmax, rng.randint(1, 2))
+        chk = [solver.safe_reference(ref, th, nx0, nt0, op["grid"]) for op in solves]
+        if any(c is None for c in chk) or (name == "random" and min(c.min() for c in chk) < 0.0):
+            continue
+        out.append(rb)
+        out.extend(solves)
+        cur_th, cur_x0, cur_t0 = th, nx0, nt0
+    return out
+
+
 def execute(case):
     res = solver.execute(case, keep_prefix=KEEP)
     res["nontrivial"] = res["stats"].get("nontrivial_solves", 0) > 0
     res["measure"] = [[op["entry"], op.get("method"), bool(op.get("full_output")), bool(op.get("include_origin")),
-                       op.get("gtype"), case["env"]["I"]] for op in case["ops"] if op["op"] == "solve"]
+                       op.get("gtype"), case["env"]["I"], k > 0 and case["ops"][k - 1]["op"] == "rebind"]
+                      for k, op in enumerate(case["ops"]) if op["op"] == "solve"]
     return res
 
 
